@@ -47,7 +47,7 @@ def nonc_orders(pkg, an):
                         if nm == "numpy.ravel" and len(t[2]) > 1:
                             pos = t[2][1]
                         for v in (o, pos):
-                            if v is not None and v not in (const("C"), const("K"), const("A"), NONE) and (e.line, nm) not in seen:
+                            if v is not None and v not in (const("C"), NONE) and (e.line, nm) not in seen:
                                 seen.add((e.line, nm))
                                 out.append((qn, e.line, "%s with order %s" % (nm, show(v))))
                         if nm == "numpy.asfortranarray" and (e.line, nm) not in seen:
